@@ -57,7 +57,7 @@ fn plan(prop: &str, thorough: bool, seed: u64) -> Plan {
         "C02" => { add(&NARROW, 60, &mut tasks); let nm = if thorough { 3000 } else { 300 }; for i in 0..nm { tasks.push(Task::Migration(seed.wrapping_mul(77).wrapping_add(i))); } add(&TRADE, 500, &mut tasks); add(&ROLES, 300, &mut tasks); add(&GRIND, 200, &mut tasks); add(&BIG, 100, &mut tasks); p.marker_matrix = true; }
         "C03" => { add(&NARROW, 60, &mut tasks); let nm = if thorough { 3000 } else { 300 }; for i in 0..nm { tasks.push(Task::Migration(seed.wrapping_mul(77).wrapping_add(i))); } add(&TRADE, 300, &mut tasks); add(&HOSTILE, 300, &mut tasks); add(&GRIND, 60, &mut tasks); add(&BIG, 60, &mut tasks); add(&LEGACY, 40, &mut tasks); }
         "C04" => { add(&NARROW, 60, &mut tasks); let nm = if thorough { 3000 } else { 300 }; for i in 0..nm { tasks.push(Task::Migration(seed.wrapping_mul(77).wrapping_add(i))); } add(&TRADE, 350, &mut tasks); add(&ROLES, 150, &mut tasks); add(&GRIND, 200, &mut tasks); add(&HOSTILE, 100, &mut tasks); add(&BIG, 60, &mut tasks); add(&LEGACY, 60, &mut tasks); p.marker_matrix = true; }
-        "C05" => { add(&TRADE, 120, &mut tasks); add(&ROLES, 120, &mut tasks); add(&HOSTILE, 120, &mut tasks); }
+        "C05" => { add(&TRADE, 120, &mut tasks); add(&ROLES, 120, &mut tasks); add(&HOSTILE, 120, &mut tasks); add(&LEGACY, 100, &mut tasks); }
         "C06" => { add(&NARROW, 60, &mut tasks); let nm = if thorough { 3000 } else { 300 }; for i in 0..nm { tasks.push(Task::Migration(seed.wrapping_mul(77).wrapping_add(i))); } add(&TRADE, 400, &mut tasks); add(&GRIND, 150, &mut tasks); add(&DEEP, 20, &mut tasks); add(&LEGACY, 150, &mut tasks); add(&BIG, 60, &mut tasks); add(&HOSTILE, 100, &mut tasks); p.marker_matrix = true; }
         "C07" => { add(&NARROW, 60, &mut tasks); add(&LEGACY, 150, &mut tasks); add(&HOSTILE, 700, &mut tasks); add(&TRADE, 150, &mut tasks); add(&BIG, 150, &mut tasks); }
         "C08" => { add(&TRADE, 500, &mut tasks); add(&HOSTILE, 300, &mut tasks); add(&ROLES, 150, &mut tasks); p.marker_matrix = true; }
